@@ -141,7 +141,8 @@ CRASHERS = {
     'crash_emph_list': '- `x` [r]\n- `code` **a****b*\n\n[r]: /u\n',
 }
 
-SCHEME_PROGRAMS = ['(+ 1 2)', '(* (+ 1 2) (- 9 4))', '(if (< 1 2) 10 20)', '(car (cons 1 2))', '(undefined-var)', '(+ 1']
+SCHEME_PROGRAMS = ['(define <b> 5) (+ <b> 1)', '(define x 2) (* x 21)', '(define (sq n) (* n n)) (sq 7)', '(+ 1 FAULTSPAN)', '(cons 1 (cons 2 null))',
+                   '(+ 1 2)', '(* (+ 1 2) (- 9 4))', '(if (< 1 2) 10 20)', '(car (cons 1 2))', '(undefined-var)', '(+ 1']
 
 
 def nest(kind, depth, leaf='x `c` [r] *e*'):
